@@ -455,7 +455,7 @@ def r24_call_shim(src, item, ed, opts):
     for sp in opts.get("shims", []):
         kind = sp["kind"]
         if kind == "methodcall":
-            c = [n for n in nodes_of(item, "methodcall") if n["method"] == sp["method"]]
+            c = [n for n in nodes_of(item, "methodcall") if n["method"] == sp["method"] and (sp.get("recv_contains") is None or sp["recv_contains"].replace(" ", "") in n["receiver_text"])]
         elif kind == "call":
             c = [n for n in nodes_of(item, "call") if n["func"] == sp["func"]]
         elif kind == "macro":
@@ -712,7 +712,7 @@ def extract_fn(src, spec, unit_rules):
             ed.insert(n["range"][0], ls["before"].strip() + "\n", "ghost")
         if ls.get("iter") and n["loop_kind"] == "for":
             ed.insert(n["expr"][0], ls["iter"] + ": ", "ghost")
-        inv = clause("invariant", ls.get("invariant")) + clause("invariant_except_break", ls.get("invariant_except_break")) + clause("ensures", ls.get("ensures")) + clause("decreases", ls.get("decreases"))
+        inv = clause("invariant_except_break", ls.get("invariant_except_break")) + clause("invariant", ls.get("invariant")) + clause("ensures", ls.get("ensures")) + clause("decreases", ls.get("decreases"))
         if inv:
             ed.insert(n["body"][0], inv + "\n", "ghost")
         if ls.get("body_start"):
@@ -908,7 +908,7 @@ def extract_arm(src, spec, unit_rules):
             ed.insert(n["range"][0], ls["before"].strip() + "\n", "ghost")
         if ls.get("iter") and n["loop_kind"] == "for":
             ed.insert(n["expr"][0], ls["iter"] + ": ", "ghost")
-        inv = clause("invariant", ls.get("invariant")) + clause("invariant_except_break", ls.get("invariant_except_break")) + clause("ensures", ls.get("ensures")) + clause("decreases", ls.get("decreases"))
+        inv = clause("invariant_except_break", ls.get("invariant_except_break")) + clause("invariant", ls.get("invariant")) + clause("ensures", ls.get("ensures")) + clause("decreases", ls.get("decreases"))
         if inv:
             ed.insert(n["body"][0], inv + "\n", "ghost")
         if ls.get("body_start"):
